@@ -1,18 +1,33 @@
 ---- MODULE TraceLda ----
 (* Trace specification for C08.  One Reset-delimited block per fitted LDA model.                          *)
-(*   Case    {id, mode, sep, lab[], X[][]}   training labels (and the integer feature data in mode "exact") *)
+(*   Case    {id, mode, fam, sub, sep, K, d, start, balanced, lab[], X[][], T[][], rc, shift, unit, nt, nproc, hist}          *)
+(*           training labels; mode "exact": integer features X, extra test points T and the recoding rc the harness        *)
+(*           applied (real value = (integer + OffsetOf(rc, j)) * mul / den); mode "ledger": seeded real-valued data with   *)
+(*           common offset `shift` (in spreads) and unit 2^unit; nt = number of test objects                               *)
 (*   Labels  {start, nclass, counts[]}       LDAMODEL.class_start, .nclass, rows of .features per class    *)
 (*   Prior   {k, num, den, err}              pprob[k] * den rounded to an integer; err = |pprob*den - num| *)
 (*   PriorSum{num, den, err, count}          (sum of pprob) * den; count = length of pprob                 *)
-(*   Mu      {k, j, num, den, err}           mu[k][j] * den rounded (mode exact: TLC recomputes the rational)*)
-(*   MuL     {k, err}                        ledger: max relative deviation of mu[k][.] from the class average *)
+(*   Mu      {k, j, num, den, err}           mu[k][j] (mapped back to the integer coordinates) * den rounded: TLC recomputes *)
+(*   MuL     {k, err}                        ledger: max deviation of mu[k][.] from the class average, relative to max(unit, |average|) *)
 (*   Pred    {i, label, truth, fin, sc[][3]} prediction[i] and the STORED probability row as order codes   *)
 (*   Disc    {err}                           stored score vs mu' C x - mu' C mu / 2 + ln(prior), max relative *)
 (*   EndPred {n, rows}                       n test objects were submitted, prediction has `rows` rows       *)
-(*   Reuse   {err, same, rows, n}            second LDAPrediction call into REUSED (sized, non-zero) outputs vs a fresh call *)
-(*   Pair    {kind, err, same, kf}           affine / perm: score-difference deviation, predictions equal; *)
+(*   Reuse   {var, err, same, rows, n}       another LDAPrediction call into REUSED outputs (var 0: sized alike and non-zero,  *)
+(*                                           1: larger, 2: smaller, 3: other test set in between) vs the first call              *)
+(*   Pair    {kind, map, err, same, kf, rows} affine / perm: score-difference deviation, predictions equal; *)
 (*                                           kf = Frobenius condition number of the covariance LDA() inverts *)
-(*   Auc     {k, err}   AucEnd{count}        |AUC_k - 1| from LDAMulticlassStatistics on perfect predictions *)
+(*   PairRow {i, kf, e[], m[]}               blocks with a common offset: per test object and class pair |D - D'| (1e-9 units)   *)
+(*                                           and ceil(max(1, |D|)); the bound is evaluated per pair                              *)
+(*   Auc     {k, err, src}  AucEnd{count, src, curves, prc}  |AUC_k - 1| from LDAMulticlassStatistics on perfect predictions (src "labels":  *)
+(*                                           the training labels twice; "pred": truth and the labels LDAPrediction returned)     *)
+(*   Hist    {err, same, rows, n, areuse}    K7: the same case once more after other models were fitted / freed in the process   *)
+(* outside the statement of C08 (modelled exactly all the same; the check reports rejections as EXTRA-FINDING):                  *)
+(*   PFeat   {var, rows, cols, n, d, err}    projected features = objects x stored eigenvectors, one column per eigenvector      *)
+(*   Err     {k, sens, spec, ppv, npv, acc}  ErrEnd{count}   LDAError per class (1e-6 units) vs the confusion counts TLC derives *)
+(*                                           from the recorded truth / prediction sequences                                      *)
+(*   Refit   {psize, murows, K, same, err}   LDA() once more into the model object that already holds a fit                      *)
+(*   FTab    {k, rows, cols, ne, merr, serr} fmean / fsdev row k vs mean / sdev of the projected training objects of class k            *)
+(*   MnPdf   {rows, cols, n, ne, err}        density output vs the normal density under the table row of the PREDICTED label       *)
 (* residuals are saturating integers in units of 1e-12.  A Crash event (emitted by the parent when the     *)
 (* child running the library died) matches no action and is therefore always rejected.                    *)
 (* Prop* = what C08 states; Impl* = how the present code happens to do it (switched off by PropOnly).      *)
@@ -23,15 +38,31 @@ CONSTANTS PropOnly,
           TolPair,      \* 1e-12 units: invariance of score differences                  100000 = 1e-7
           PairPerKf,    \* 1e-12 units per unit condition number: the bound grows with the conditioning of the
                         \* matrix LDA() has to invert (accuracy of the inversion itself is C12's subject)  10000 = 1e-8
-          KfMax         \* beyond this condition number the covariance is numerically singular: outside the quantifier
+          KfMax,        \* beyond this condition number the covariance is numerically singular: outside the quantifier
+          ShiftC        \* multiples of the unit roundoff allowed per feature on a score difference whose terms are shift^2 large
 VARIABLES l, st
 tvars == <<lab, X, l, st>>
 Ev == Tr[l]
-St0 == [mode |-> "none", sep |-> 0, errs |-> 0, nauc |-> 0]
+NoGeo == [cnt |-> <<>>, sum |-> <<>>, adj |-> <<>>, det |-> 0, np |-> 0]
+St0 == [mode |-> "none", sep |-> 0, errs |-> 0, nauc |-> 0, npred |-> 0, nt |-> 0, d |-> 0, shift |-> 0, prow |-> 0,
+        geo |-> NoGeo, T |-> <<>>, rc |-> Recodes[1], truth |-> <<>>, pred |-> <<>>, nerr |-> 0, sub |-> 0,
+        K |-> 0, start |-> 0, labs |-> {}]        \* NClass(lab), ClassStart(lab), Range(lab) of the block, computed once
 
 LexLe(a, b) == \/ a[1] < b[1]
                \/ a[1] = b[1] /\ (a[2] < b[2] \/ (a[2] = b[2] /\ a[3] <= b[3]))
 ArgmaxSet(sc) == {k \in 1..Len(sc) : \A m \in 1..Len(sc) : LexLe(sc[m], sc[k])}
+
+(* ---------------------------------------------------------------- tolerance functions of the logged input *)
+(* exact means at offset `off`: 420 * (ulp of a number of size off) in 1e-12 units is ~ 0.1 off *)
+TolMuExact(rc) == TolExact + (rc.off \div 4)
+(* score differences of data with a common offset of `shift` spreads: every score is a sum of d terms of size shift^2, so the *)
+(* difference of two of them carries ~ ShiftC * u * d * shift^2 of absolute rounding error (u = 1.1e-16), in 1e-9 units:     *)
+(* 1.1e-16 * 1e9 * 1e6 = 0.11 per (shift/1000)^2.  Zero below 1000 spreads: the old bound stands there.                       *)
+ShiftAbs9(d, shift) == (ShiftC * d * (shift \div 1000) * (shift \div 1000)) \div 9
+(* relative part, per unit of max(1, |D|), in 1e-9 units *)
+PairRel9(kf) == LET a == TolPair \div 1000  b == (PairPerKf * kf) \div 1000 IN IF a >= b THEN a ELSE b
+PairEntryOk(e, m, kf, d, shift) == \/ e <= ShiftAbs9(d, shift)
+                                   \/ (e - ShiftAbs9(d, shift)) \div m <= PairRel9(kf)
 
 TInit == l = 1 /\ lab = <<0>> /\ X = <<>> /\ st = St0
 Step == l' = l + 1
@@ -40,10 +71,26 @@ Same == UNCHANGED <<lab, X, st>>
 TReset == /\ l <= Len(Tr) /\ Ev.e = "Reset" /\ Step
           /\ lab' = <<0>> /\ X' = <<>> /\ st' = St0
 
+\* the harness generated inside the quantifier (decided here, not in the harness)
+ExactCaseOk(ev) == /\ ev.d \in {1, 2} /\ \A i \in 1..Len(ev.X) : Len(ev.X[i]) = ev.d
+                   /\ Len(ev.X) = Len(ev.lab)
+                   /\ \A i \in 1..Len(ev.T) : Len(ev.T[i]) = ev.d
+                   /\ NonSingular(ev.lab, ev.X)
+                   /\ ev.rc \in RecodeSet
+                   /\ ev.nt = Len(ev.lab) + Len(ev.T)
+LedgerCaseOk(ev) == /\ ev.K = NClass(ev.lab) /\ ev.K \in 2..5 /\ ev.d \in 2..6
+                    /\ \A k \in Rows(ev.lab) : Count(ev.lab, k) \in 4..40
+                    /\ ev.shift \in 0..1000000 /\ ev.unit \in (0 - 20)..20
+                    /\ ev.nt >= 1
 TCase == /\ l <= Len(Tr) /\ Ev.e = "Case" /\ Step
-         /\ WellFormed(Ev.lab)                       \* the harness generated inside the quantifier
+         /\ WellFormed(Ev.lab)
+         /\ Ev.start = ClassStart(Ev.lab)
+         /\ IF Ev.mode = "exact" THEN ExactCaseOk(Ev) ELSE LedgerCaseOk(Ev)
          /\ lab' = Ev.lab /\ X' = Ev.X
-         /\ st' = [St0 EXCEPT !.mode = Ev.mode, !.sep = Ev.sep]
+         /\ st' = [St0 EXCEPT !.mode = Ev.mode, !.sep = Ev.sep, !.nt = Ev.nt, !.d = Ev.d, !.shift = Ev.shift, !.sub = Ev.sub,
+                              !.geo = IF Ev.mode = "exact" THEN Geometry(Ev.lab, Ev.X) ELSE NoGeo,
+                              !.T = Ev.T, !.rc = Ev.rc,
+                              !.K = NClass(Ev.lab), !.start = ClassStart(Ev.lab), !.labs = Range(Ev.lab)]
 
 \* what LDA() stored about the numbering
 TLabels == /\ l <= Len(Tr) /\ Ev.e = "Labels" /\ Step /\ Same
@@ -65,7 +112,7 @@ TPriorSum == /\ l <= Len(Tr) /\ Ev.e = "PriorSum" /\ Step /\ Same
 TMu == /\ l <= Len(Tr) /\ Ev.e = "Mu" /\ Step /\ Same
        /\ st.mode = "exact"
        /\ Ev.k \in Rows(lab) /\ Ev.j \in 1..Len(X[1])
-       /\ Ev.err <= TolExact
+       /\ Ev.err <= TolMuExact(st.rc)
        /\ REq(<<Ev.num, Ev.den>>, Mu(lab, X, Ev.k, Ev.j))
 TMuL == /\ l <= Len(Tr) /\ Ev.e = "MuL" /\ Step /\ Same
         /\ Ev.k \in Rows(lab)
@@ -73,44 +120,106 @@ TMuL == /\ l <= Len(Tr) /\ Ev.e = "MuL" /\ Step /\ Same
 
 \* prediction: a training label that stands for a row maximising the stored score (ties: any maximiser)
 PropPred(ev) == /\ ev.fin = 1
-                /\ ev.label \in Range(lab)
-                /\ Len(ev.sc) = NClass(lab)
-                /\ (RowOf(lab, ev.label) + 1) \in ArgmaxSet(ev.sc)
-ImplPred(ev) == PropOnly \/ RowOf(lab, ev.label) + 1 = MinS(ArgmaxSet(ev.sc))     \* first maximiser wins
+                /\ ev.label \in st.labs                                  \* = Range(lab)
+                /\ Len(ev.sc) = st.K                                     \* = NClass(lab)
+                /\ (ev.label - st.start + 1) \in ArgmaxSet(ev.sc)        \* = RowOf(lab, label) + 1
+\* mode exact: the winning row is one that no equally large class beats in EXACT arithmetic (by the recoding's margin)
+TestPoint(i) == IF i <= Len(X) THEN X[i] ELSE st.T[i - Len(X)]
+PropPredExact(ev) == st.mode = "exact" =>
+                       /\ ev.i \in 1..(Len(X) + Len(st.T))
+                       /\ (ev.label - st.start) \in AdmRowsG(st.geo, st.K, TestPoint(ev.i), RecodeMargin(st.rc))
+ImplPred(ev) == PropOnly \/ ev.label - st.start + 1 = MinS(ArgmaxSet(ev.sc))     \* first maximiser wins
 TPred == /\ l <= Len(Tr) /\ Ev.e = "Pred" /\ Step /\ UNCHANGED <<lab, X>>
-         /\ PropPred(Ev) /\ ImplPred(Ev)
-         /\ st' = [st EXCEPT !.errs = @ + (IF Ev.label = Ev.truth THEN 0 ELSE 1)]
+         /\ PropPred(Ev) /\ PropPredExact(Ev) /\ ImplPred(Ev)
+         /\ st' = [st EXCEPT !.errs = @ + (IF Ev.label = Ev.truth THEN 0 ELSE 1), !.npred = @ + 1,
+                             !.truth = IF st.mode = "ledger" /\ st.sub # 1 THEN Append(@, Ev.truth) ELSE @,
+                             !.pred = IF st.mode = "ledger" /\ st.sub # 1 THEN Append(@, Ev.label) ELSE @]
 
 \* the stored score is the documented discriminant of the stored model
+\* Impl: the stored inverse is the inverse of the pooled WITHIN-class covariance with weights n_k / n (residual max |S C - I| grows with
+\* the conditioning); the statement itself only speaks of "the stored discriminant score"
+ImplDisc(ev) == PropOnly \/ (ev.cov = "within" /\ (ev.kf > KfMax \/ ev.invres <= TolPair \/ ev.invres <= PairPerKf * ev.kf))   \* (kf first: 32-bit product)
 TDisc == /\ l <= Len(Tr) /\ Ev.e = "Disc" /\ Step /\ Same
          /\ Ev.err <= TolAlg
+         /\ ImplDisc(Ev)
 
 \* every test object was predicted; well separated classes are classified without error
-TEndPred == /\ l <= Len(Tr) /\ Ev.e = "EndPred" /\ Step /\ Same
+TEndPred == /\ l <= Len(Tr) /\ Ev.e = "EndPred" /\ Step /\ UNCHANGED <<lab, X>>
             /\ Ev.rows = Ev.n
+            /\ st.npred <= Ev.n             \* (= n unless the check removed rejected Pred events of this block)
+            /\ (st.sub = 0 => Ev.n = st.nt)
             /\ (st.sep = 1 => st.errs = 0)
+            /\ st' = [st EXCEPT !.npred = 0]
 
-\* what a call returns does not depend on what its output matrices held before
+\* what a call returns does not depend on what its output matrices held before, nor on their size
 TReuse == /\ l <= Len(Tr) /\ Ev.e = "Reuse" /\ Step /\ Same
+          /\ Ev.var \in 0..3
           /\ Ev.rows = Ev.n /\ Ev.same = 1 /\ Ev.err <= TolExact
 
 \* invariance under affine re-coding of train and test, and under reordering of the training objects
-TPair == /\ l <= Len(Tr) /\ Ev.e = "Pair" /\ Step /\ Same
+TPairRow == /\ l <= Len(Tr) /\ Ev.e = "PairRow" /\ Step /\ UNCHANGED <<lab, X>>
+            /\ st.shift > 0
+            /\ Ev.kf <= KfMax
+            /\ Len(Ev.e9) = Len(Ev.m) /\ Len(Ev.e9) = (st.K * (st.K - 1)) \div 2
+            /\ \A p \in 1..Len(Ev.e9) : Ev.m[p] >= 1 /\ PairEntryOk(Ev.e9[p], Ev.m[p], Ev.kf, st.d, st.shift)
+            /\ st' = [st EXCEPT !.prow = @ + 1]
+TPair == /\ l <= Len(Tr) /\ Ev.e = "Pair" /\ Step /\ UNCHANGED <<lab, X>>
          /\ Ev.kind \in {"affine", "perm"}
          /\ Ev.kf <= KfMax                   \* numerically singular cases are dropped (and counted) by the check
-         /\ (Ev.err <= TolPair \/ Ev.err <= PairPerKf * Ev.kf)
+         /\ IF st.shift = 0 THEN (Ev.err <= TolPair \/ Ev.err <= PairPerKf * Ev.kf) /\ Ev.rows = 0
+                            ELSE Ev.rows = st.prow /\ Ev.rows = st.nt         \* every object's pairs were judged one by one
          /\ Ev.same = 1
+         /\ st' = [st EXCEPT !.prow = 0]
 
-\* per-class ROC on perfect 0-based predictions
+\* per-class ROC on perfect 0-based predictions: one summary per class (two classes: the second one mirrors the first)
 TAuc == /\ l <= Len(Tr) /\ Ev.e = "Auc" /\ Step /\ UNCHANGED <<lab, X>>
         /\ Ev.err <= TolExact
+        /\ Ev.k = st.nauc
+        /\ Ev.src \in {"labels", "pred"}
+        /\ (Ev.src = "pred" => st.errs = 0)            \* the premise "perfect predictions" is TLC's own count
         /\ st' = [st EXCEPT !.nauc = @ + 1]
-TAucEnd == /\ l <= Len(Tr) /\ Ev.e = "AucEnd" /\ Step /\ Same
+TAucEnd == /\ l <= Len(Tr) /\ Ev.e = "AucEnd" /\ Step /\ UNCHANGED <<lab, X>>
            /\ st.nauc >= 1 /\ st.nauc = Ev.count
-           /\ (PropOnly \/ st.nauc = (IF NClass(lab) = 2 THEN 1 ELSE NClass(lab)))   \* two classes: one curve
+           /\ ClassStart(lab) = 0
+           /\ (NClass(lab) >= 3 => st.nauc = NClass(lab))
+           /\ (NClass(lab) = 2 => st.nauc \in {1, 2})
+           /\ (PropOnly \/ (/\ st.nauc = (IF NClass(lab) = 2 THEN 1 ELSE NClass(lab))   \* two classes: one curve
+                            /\ Ev.curves = Ev.count /\ Ev.prc = Ev.count))                  \* one ROC table and one PR area per summary
+           /\ st' = [st EXCEPT !.nauc = 0]
+
+\* K7: the same data fitted and predicted again after other models lived and died in the same process
+THist == /\ l <= Len(Tr) /\ Ev.e = "Hist" /\ Step /\ Same
+         /\ Ev.rows = Ev.n /\ Ev.same = 1 /\ Ev.err <= TolExact
+
+(* ---------------------------------------------------------------- outside the statement (EXTRA-FINDING when rejected) *)
+TPFeat == /\ l <= Len(Tr) /\ Ev.e = "PFeat" /\ Step /\ Same
+          /\ Ev.rows = Ev.n /\ Ev.cols = Ev.d /\ Ev.err <= TolAlg
+\* |q/1e6 - num/den| <= 1e-6
+Near6(q, r) == LET a == q * r[2] - r[1] * 1000000 IN Abs(a) <= r[2]
+TErr == /\ l <= Len(Tr) /\ Ev.e = "Err" /\ Step /\ UNCHANGED <<lab, X>>
+        /\ Ev.k = st.nerr /\ Ev.k \in Rows(lab)
+        /\ Len(st.truth) = Len(st.pred) /\ Len(st.truth) <= st.nt
+        /\ (Len(st.truth) = st.nt =>          \* not judged when the check removed rejected Pred events of this block
+              LET c == Confusion(st.truth, st.pred, ClassStart(lab), Ev.k)
+              IN /\ Near6(Ev.sens, Sens(c)) /\ Near6(Ev.spec, Specif(c)) /\ Near6(Ev.ppv, Ppv(c))
+                 /\ Near6(Ev.npv, Npv(c)) /\ Near6(Ev.acc, Acc(c)))
+        /\ st' = [st EXCEPT !.nerr = @ + 1]
+TErrEnd == /\ l <= Len(Tr) /\ Ev.e = "ErrEnd" /\ Step /\ UNCHANGED <<lab, X>>
+           /\ Ev.count = NClass(lab) /\ st.nerr = NClass(lab)
+           /\ st' = [st EXCEPT !.nerr = 0]
+\* the feature tables the label map indexes: one row per class, row k = mean / sdev of the projected training objects of label k + start;
+\* the density output is evaluated with the table row of the predicted label (TableRow of Lda.tla)
+TFTab == /\ l <= Len(Tr) /\ Ev.e = "FTab" /\ Step /\ Same
+         /\ Ev.k \in Rows(lab) /\ Ev.rows = NClass(lab) /\ Ev.cols = Ev.ne
+         /\ Ev.merr <= TolAlg /\ Ev.serr <= TolPair
+TMnPdf == /\ l <= Len(Tr) /\ Ev.e = "MnPdf" /\ Step /\ Same
+          /\ Ev.rows = Ev.n /\ Ev.cols = Ev.ne /\ Ev.err <= TolAlg
+TRefit == /\ l <= Len(Tr) /\ Ev.e = "Refit" /\ Step /\ Same
+          /\ Ev.psize = NClass(lab) /\ Ev.murows = NClass(lab)
+          /\ Ev.same = 1 /\ Ev.err <= TolExact
 
 TNext == TReset \/ TCase \/ TLabels \/ TPrior \/ TPriorSum \/ TMu \/ TMuL \/ TPred \/ TDisc \/ TEndPred \/ TReuse
-         \/ TPair \/ TAuc \/ TAucEnd
+         \/ TPairRow \/ TPair \/ TAuc \/ TAucEnd \/ THist \/ TPFeat \/ TErr \/ TErrEnd \/ TRefit \/ TFTab \/ TMnPdf
 TSpec == TInit /\ [][TNext]_tvars
 TraceAccepted == Accepted
 Diag == ShowCursor(l)
